@@ -342,6 +342,8 @@ class Impute(EnvironmentFilter):
             imputations = {}
             impute_binary = {}
             binary_template = {}
+            #a key that is absent from the whole window is a column of zeros in that window
+            unseen = self._get_imputation([0]*len(using_interactions))
             for k,col in unimputed.items():
                 imputation = self._get_imputation(col + [0]*(len(using_interactions)-len(col)))
                 if imputation is not None:
@@ -377,6 +379,8 @@ class Impute(EnvironmentFilter):
                         context[k] = imputations[k]
                         if k in impute_binary:
                             is_missing[impute_binary[k]] = 1
+                    elif v is None and k not in unimputed and k not in unimputable_cols and unseen is not None:
+                        context[k] = unseen
                 context.update(is_missing)
 
             elif is_value:
